@@ -4,457 +4,14 @@
 //! with equal preimage counts.  The RNG is scripted: a chosen byte prefix followed by a seeded stream.
 #![allow(unused_macros, unused_imports, unused_variables, unused_mut)]
 
-use bnum_verif_harness::gen::{self, Rng as GRng, B};
-use bnum_verif_harness::*;
-use rand::distributions::uniform::{SampleUniform, UniformSampler};
-use rand::distributions::{Distribution, Standard, Uniform};
-use rand::{Rng, RngCore};
-
-struct Script {
-    pre: Vec<u8>,
-    pos: usize,
-    fallback: GRng,
-}
-impl Script {
-    fn new(pre: &[u8], seed: u64) -> Self {
-        Script { pre: pre.to_vec(), pos: 0, fallback: GRng::new(seed) }
-    }
-    fn byte(&mut self) -> u8 {
-        let b = if self.pos < self.pre.len() { self.pre[self.pos] } else { (self.fallback.next() >> 24) as u8 };
-        self.pos += 1;
-        b
-    }
-}
-impl RngCore for Script {
-    fn next_u32(&mut self) -> u32 {
-        let mut b = [0u8; 4];
-        self.fill_bytes(&mut b);
-        u32::from_le_bytes(b)
-    }
-    fn next_u64(&mut self) -> u64 {
-        let mut b = [0u8; 8];
-        self.fill_bytes(&mut b);
-        u64::from_le_bytes(b)
-    }
-    fn fill_bytes(&mut self, dest: &mut [u8]) {
-        for d in dest.iter_mut() {
-            *d = self.byte();
-        }
-    }
-    fn try_fill_bytes(&mut self, dest: &mut [u8]) -> Result<(), rand::Error> {
-        self.fill_bytes(dest);
-        Ok(())
-    }
-}
-
-trait R20: Bn + SampleUniform + PartialOrd
-where
-    Standard: Distribution<Self>,
-    bnum::random::Slice<Self>: rand::Fill,
-{
-}
-impl<T: Bn + SampleUniform + PartialOrd> R20 for T
-where
-    Standard: Distribution<T>,
-    bnum::random::Slice<T>: rand::Fill,
-{
-}
-
-fn standard_events<T: R20>(rec: &mut Rec, r: &mut GRng, thorough: bool)
-where
-    Standard: Distribution<T>,
-    bnum::random::Slice<T>: rand::Fill,
-{
-    let n = (T::W / 8) as usize;
-    rec.sem = "C20";
-    let mut streams: Vec<Vec<u8>> = vec![vec![0u8; n], vec![0xff; n], (0..n).map(|i| (i + 1) as u8).collect(), gen::smin(n), gen::small(n, 1)];
-    for _ in 0..(if thorough { 30 } else { 6 }) {
-        streams.push(gen::random(r, n));
-        streams.push(gen::extreme(r, n));
-    }
-    for s in streams {
-        rec.fam("standard", vec![bytes(&s)]);
-        rec.form("gen", || {
-            let mut g = Script::new(&s, 1);
-            let v: T = g.gen();
-            Out::Rec(vec![("v".to_string(), val(v)), ("used".to_string(), natv(g.pos as u128))])
-        });
-        rec.form("standard_sample", || {
-            let mut g = Script::new(&s, 1);
-            let v: T = Standard.sample(&mut g);
-            Out::Rec(vec![("v".to_string(), val(v)), ("used".to_string(), natv(g.pos as u128))])
-        });
-        rec.form("fill_one", || {
-            let mut g = Script::new(&s, 1);
-            let mut arr = [T::dec(&vec![0x55u8; n])];
-            bnum::random::try_fill_slice(&mut arr, &mut g).unwrap();
-            Out::Rec(vec![("v".to_string(), val(arr[0])), ("used".to_string(), natv(g.pos as u128))])
-        });
-    }
-    // slice fill equals filling each element in turn
-    for k in [0usize, 1, 2, 3, 7] {
-        let s = gen::random(r, n * k);
-        rec.fam("fill_slice", vec![bytes(&s), nat(k as u128)]);
-        rec.form("slice", || {
-            let mut g = Script::new(&s, 2);
-            let mut v: Vec<T> = vec![T::dec(&vec![0xaau8; n]); k];
-            bnum::random::try_fill_slice(&mut v, &mut g).unwrap();
-            Out::Rec(vec![("v".to_string(), Out::Bytes(v.iter().flat_map(|x| x.enc()).collect())), ("used".to_string(), natv(g.pos as u128))])
-        });
-        rec.form("elementwise", || {
-            let mut g = Script::new(&s, 2);
-            let v: Vec<T> = (0..k).map(|_| g.gen::<T>()).collect();
-            Out::Rec(vec![("v".to_string(), Out::Bytes(v.iter().flat_map(|x| x.enc()).collect())), ("used".to_string(), natv(g.pos as u128))])
-        });
-        rec.form("fill_trait", || {
-            let mut g = Script::new(&s, 2);
-            let mut v: Vec<T> = vec![T::dec(&vec![0xaau8; n]); k];
-            {
-                let sl: &mut [T] = &mut v;
-                let sl = unsafe { &mut *(sl as *mut [T] as *mut bnum::random::Slice<T>) };
-                g.fill(sl);
-            }
-            Out::Rec(vec![("v".to_string(), Out::Bytes(v.iter().flat_map(|x| x.enc()).collect())), ("used".to_string(), natv(g.pos as u128))])
-        });
-    }
-}
-
-/// one draw through each sampling entry point; the word prefix is `words`
-fn draw<T: R20>(method: &str, low: T, high: T, high_excl: Option<T>, g: &mut Script) -> Option<T>
-where
-    Standard: Distribution<T>,
-    bnum::random::Slice<T>: rand::Fill,
-{
-    match method {
-        "sample" => Some(Uniform::new_inclusive(low, high).sample(g)),
-        "single_inclusive" => Some(<T::Sampler as UniformSampler>::sample_single_inclusive(low, high, g)),
-        "gen_range" => Some(g.gen_range(low..=high)),
-        "new_sample" => high_excl.map(|h| Uniform::new(low, h).sample(g)),
-        "single" => high_excl.map(|h| <T::Sampler as UniformSampler>::sample_single(low, h, g)),
-        "gen_range_excl" => high_excl.map(|h| g.gen_range(low..h)),
-        _ => panic!("method"),
-    }
-}
-const METHODS: [&str; 6] = ["sample", "single_inclusive", "gen_range", "new_sample", "single", "gen_range_excl"];
-
-/// pattern arithmetic on the harness side: value of pattern as offset from low (mod 2^W), if < size
-fn offset(n: usize, low: &B, x: &B) -> B {
-    // (x - low) mod 2^(8n)
-    let mut out = vec![0u8; n];
-    let mut br = 0i16;
-    for i in 0..n {
-        let mut d = x[i] as i16 - low[i] as i16 - br;
-        if d < 0 {
-            d += 256;
-            br = 1;
-        } else {
-            br = 0;
-        }
-        out[i] = d as u8;
-    }
-    out
-}
-fn to_u64(b: &B) -> Option<u64> {
-    if b.iter().skip(8).any(|x| *x != 0) {
-        return None;
-    }
-    let mut v = 0u64;
-    for (i, x) in b.iter().take(8).enumerate() {
-        v |= (*x as u64) << (8 * i);
-    }
-    Some(v)
-}
-
-/// complete enumeration of the first RNG word for one range: histogram of results over accepted words
-fn hist_event<T: R20>(rec: &mut Rec, lowb: &B, highb: &B, size: u64)
-where
-    Standard: Distribution<T>,
-    bnum::random::Slice<T>: rand::Fill,
-{
-    let n = (T::W / 8) as usize;
-    let low = T::dec(lowb);
-    let high = T::dec(highb);
-    let hx = gen::add1(highb);
-    // high + 1 as an exclusive bound exists unless high is the type's maximum
-    let is_max = if T::S { *highb == gen::smax(n) } else { *highb == gen::ones(n) };
-    let high_excl = if is_max { None } else { Some(T::dec(&hx)) };
-    rec.sem = "C20";
-    rec.fam("uniform_hist", vec![int(&low), int(&high), nat(size as u128)]);
-    let total: u64 = 1u64 << (8 * n);
-    for m in METHODS.iter() {
-        if high_excl.is_none() && (*m == "new_sample" || *m == "single" || *m == "gen_range_excl") {
-            continue;
-        }
-        let m: &'static str = m;
-        rec.form(m, || {
-            let mut counts = vec![0u64; size as usize];
-            let mut rejected = 0u64;
-            let mut outside = 0u64;
-            for word in 0..total {
-                let wb = word.to_le_bytes();
-                let mut g = Script::new(&wb[..n], 3);
-                let v = draw::<T>(m, low, high, high_excl, &mut g).unwrap();
-                let off = offset(n, lowb, &v.enc());
-                match to_u64(&off) {
-                    Some(k) if k < size => {
-                        if g.pos == n {
-                            counts[k as usize] += 1;
-                        } else {
-                            rejected += 1;
-                        }
-                    }
-                    _ => outside += 1,
-                }
-            }
-            Out::Rec(vec![("counts".to_string(), Out::Ints(counts)), ("rejected".to_string(), Out::Ints(vec![rejected])), ("outside".to_string(), Out::Ints(vec![outside]))])
-        });
-    }
-}
-
-/// membership and termination at any width: a few crafted word prefixes per range
-fn point_events<T: R20>(rec: &mut Rec, r: &mut GRng, thorough: bool)
-where
-    Standard: Distribution<T>,
-    bnum::random::Slice<T>: rand::Fill,
-{
-    let n = (T::W / 8) as usize;
-    let bnd = gen::boundary(n);
-    rec.sem = "C20";
-    let mut ranges: Vec<(B, B)> = Vec::new();
-    let (tmin, tmax) = if T::S { (gen::smin(n), gen::smax(n)) } else { (gen::zero(n), gen::ones(n)) };
-    ranges.push((tmin.clone(), tmax.clone())); // the full range: size wraps to zero
-    ranges.push((tmin.clone(), tmin.clone())); // size 1
-    ranges.push((tmax.clone(), tmax.clone()));
-    ranges.push((tmin.clone(), gen::sub1(&tmax)));
-    ranges.push((gen::add1(&tmin), tmax.clone()));
-    if T::S {
-        ranges.push((gen::ones(n), gen::small(n, 1))); // -1..=1 spanning zero
-        ranges.push((gen::negate(&gen::small(n, 100)), gen::small(n, 100)));
-    }
-    for _ in 0..(if thorough { 60 } else { 10 }) {
-        let a = gen::any(r, n, &bnd);
-        let b = gen::any(r, n, &bnd);
-        let le = if T::S { gen::scmp(&a, &b) } else { gen::ucmp(&a, &b) };
-        if le == std::cmp::Ordering::Greater {
-            ranges.push((b, a));
-        } else {
-            ranges.push((a, b));
-        }
-    }
-    // sizes 2^k and 2^k + 1 from a random low
-    for _ in 0..(if thorough { 20 } else { 4 }) {
-        let k = r.below((8 * n - 1) as u64) as usize;
-        let low = gen::fit(&gen::short(r, (n / 2).max(1)), n);
-        let size = if r.below(2) == 0 { gen::pow2(n, k) } else { gen::add1(&gen::pow2(n, k)) };
-        let high = gen::sub1(&gen::fit(&gen::uadd(&low, &size)[..n].to_vec(), n));
-        let ok = if T::S { gen::scmp(&low, &high) != std::cmp::Ordering::Greater } else { gen::ucmp(&low, &high) != std::cmp::Ordering::Greater };
-        if ok {
-            ranges.push((low, high));
-        }
-    }
-    for (lb, hb) in ranges {
-        let low = T::dec(&lb);
-        let high = T::dec(&hb);
-        let is_max = hb == tmax;
-        let high_excl = if is_max { None } else { Some(T::dec(&gen::add1(&hb))) };
-        let prefixes: Vec<Vec<u8>> = vec![vec![0u8; n], vec![0xff; n], gen::random(r, n), gen::random(r, 2 * n), [vec![0xffu8; n], vec![0u8; n]].concat()];
-        for pre in prefixes {
-            rec.fam("uniform_point", vec![int(&low), int(&high), bytes(&pre)]);
-            for m in METHODS.iter() {
-                let m: &'static str = m;
-                if high_excl.is_none() && (m == "new_sample" || m == "single" || m == "gen_range_excl") {
-                    continue;
-                }
-                rec.form(m, || {
-                    let mut g = Script::new(&pre, 5);
-                    val(draw::<T>(m, low, high, high_excl, &mut g).unwrap())
-                });
-            }
-        }
-    }
-}
-
-/// acceptance is a property of the word, not of the history: a word that is rejected as the first word of a
-/// stream is rejected wherever it occurs, so [v, v, ... (k times), u] must give what [u] gives and consume k+1 words.
-/// The rejected word v is found by the harness by trying words (ranges just above half the type are rejected
-/// about half of the time); u is a word that is accepted as a first word.
-fn stateless_events<T: R20>(rec: &mut Rec, r: &mut GRng, thorough: bool)
-where
-    Standard: Distribution<T>,
-    bnum::random::Slice<T>: rand::Fill,
-{
-    let n = (T::W / 8) as usize;
-    rec.sem = "C20";
-    let (tmin, _tmax) = if T::S { (gen::smin(n), gen::smax(n)) } else { (gen::zero(n), gen::ones(n)) };
-    // range [MIN, MIN + 2^(W-1)]: size 2^(W-1) + 1
-    let lowb = tmin.clone();
-    let mut highb = tmin.clone();
-    // high = low + 2^(W-1): flip the top bit
-    highb[n - 1] ^= 0x80;
-    let low = T::dec(&lowb);
-    let high = T::dec(&highb);
-    let is_max = false;
-    for m in ["sample", "single_inclusive", "gen_range"] {
-        // find a rejected and an accepted first word
-        let mut rej: Option<Vec<u8>> = None;
-        let mut acc: Option<Vec<u8>> = None;
-        for _ in 0..400 {
-            let wv = gen::random(r, n);
-            let mut g = Script::new(&wv, 9);
-            let _ = draw::<T>(m, low, high, None, &mut g);
-            if g.pos == n {
-                if acc.is_none() {
-                    acc = Some(wv);
-                }
-            } else if rej.is_none() {
-                rej = Some(wv);
-            }
-            if rej.is_some() && acc.is_some() {
-                break;
-            }
-        }
-        if let (Some(v), Some(u)) = (rej, acc) {
-            for k in [1usize, 2, 127, 128, 129, 200, if thorough { 1000 } else { 300 }] {
-                let mut stream: Vec<u8> = Vec::with_capacity((k + 1) * n);
-                for _ in 0..k {
-                    stream.extend_from_slice(&v);
-                }
-                stream.extend_from_slice(&u);
-                let m: &'static str = m;
-                rec.fam("uniform_stateless", vec![int(&low), int(&high), bytes(&v), bytes(&u), nat(k as u128), tag(m)]);
-                rec.form("alone", || {
-                    let mut g = Script::new(&u, 9);
-                    let x = draw::<T>(m, low, high, None, &mut g).unwrap();
-                    Out::Rec(vec![("v".to_string(), val(x)), ("used".to_string(), natv(g.pos as u128))])
-                });
-                rec.form("after", || {
-                    let mut g = Script::new(&stream, 9);
-                    let x = draw::<T>(m, low, high, None, &mut g).unwrap();
-                    Out::Rec(vec![("v".to_string(), val(x)), ("used".to_string(), natv(g.pos as u128))])
-                });
-            }
-        }
-    }
-    let _ = is_max;
-}
-
-fn hist_ranges(r: &mut GRng, n: usize, signed: bool, count: usize, max_size: u64) -> Vec<(B, B, u64)> {
-    let mut v: Vec<(B, B, u64)> = Vec::new();
-    let (tmin, tmax) = if signed { (gen::smin(n), gen::smax(n)) } else { (gen::zero(n), gen::ones(n)) };
-    let sizes: Vec<u64> = vec![1, 2, 3, 4, 5, 6, 7, 9, 10, 15, 16, 17, 100, 127, 128, 129, 200, 255];
-    for i in 0..count {
-        let size = if i < sizes.len() && sizes[i] <= max_size { sizes[i] } else { 1 + r.below(max_size) };
-        // low: sometimes so that the range spans zero / ends at the type's maximum
-        let low = match r.below(4) {
-            0 => tmin.clone(),
-            1 => {
-                // end at the maximum
-                let mut l = tmax.clone();
-                for _ in 1..size {
-                    l = gen::sub1(&l);
-                }
-                l
-            }
-            2 if signed => gen::negate(&gen::small(n, size / 2)),
-            _ => gen::random(r, n),
-        };
-        let mut high = low.clone();
-        let mut ok = true;
-        for _ in 1..size {
-            if high == tmax {
-                ok = false;
-                break;
-            }
-            high = gen::add1(&high);
-        }
-        if ok {
-            v.push((low, high, size));
-        }
-    }
-    v
-}
-
-fn run_type<T: R20>(rec: &mut Rec, seed: u64, thorough: bool)
-where
-    Standard: Distribution<T>,
-    bnum::random::Slice<T>: rand::Fill,
-{
-    let n = (T::W / 8) as usize;
-    let mut r = GRng::new(seed ^ ((T::W as u64) << 28) ^ (T::S as u64) ^ 0xC20);
-    standard_events::<T>(rec, &mut r, thorough);
-    point_events::<T>(rec, &mut r, thorough);
-    stateless_events::<T>(rec, &mut r, thorough);
-    match T::W {
-        8 => {
-            let cnt = if thorough { 400 } else { 40 };
-            for (l, h, s) in hist_ranges(&mut r, n, T::S, cnt, 255) {
-                hist_event::<T>(rec, &l, &h, s);
-            }
-        }
-        16 => {
-            let cnt = if thorough { 40 } else { 5 };
-            for (l, h, s) in hist_ranges(&mut r, n, T::S, cnt, 300) {
-                hist_event::<T>(rec, &l, &h, s);
-            }
-        }
-        24 => {
-            // the approximate rejection zone first applies here: complete enumeration of 2^24 words
-            // always one odd size and one even size that is not a power of two
-            let cnt = if thorough { 8 } else { 2 };
-            let mut rs = hist_ranges(&mut r, n, T::S, cnt + 24, 4096);
-            rs.retain(|x| x.2 >= 3 && (x.2 & (x.2 - 1)) != 0);
-            let odd: Vec<_> = rs.iter().filter(|x| x.2 % 2 == 1).take((cnt + 1) / 2).cloned().collect();
-            let even: Vec<_> = rs.iter().filter(|x| x.2 % 2 == 0).take(cnt / 2).cloned().collect();
-            for (l, h, s) in odd.into_iter().chain(even.into_iter()) {
-                hist_event::<T>(rec, &l, &h, s);
-            }
-        }
-        _ => {}
-    }
-}
-
-struct Ctx {
-    cli: Cli,
-    sink: Sink,
-}
-thread_local! {
-    static CTX: std::cell::RefCell<Option<Ctx>> = std::cell::RefCell::new(None);
-}
-
-macro_rules! run_bnum {
-    ($w:literal; $(($U:ty, $I:ty)),+) => {
-        CTX.with(|c| {
-            let mut c = c.borrow_mut();
-            let c = c.as_mut().unwrap();
-            if c.cli.only_width.map_or(true, |x| x == $w) {
-                let thorough = c.cli.tier == "thorough";
-                let mut us: Vec<(&'static str, Rec)> = Vec::new();
-                let mut is: Vec<(&'static str, Rec)> = Vec::new();
-                $(
-                    {
-                        let mut ru = Rec::new();
-                        let mut ri = Rec::new();
-                        run_type::<$U>(&mut ru, c.cli.seed, thorough);
-                        run_type::<$I>(&mut ri, c.cli.seed, thorough);
-                        us.push((<$U as Bn>::DT, ru));
-                        is.push((<$I as Bn>::DT, ri));
-                    }
-                )+
-                c.sink.merge($w, false, "bnum", us);
-                c.sink.merge($w, true, "bnum", is);
-            }
-        });
+macro_rules! the_matrix {
+    ($m:ident) => {
+        bnum_verif_harness::for_matrix!($m);
     };
 }
-
-fn main() {
-    install_hook();
-    let cli = parse_cli();
-    let prop = cli.prop.clone();
-    let sink = Sink::new(&cli.out, &prop);
-    CTX.with(|c| *c.borrow_mut() = Some(Ctx { cli, sink }));
-    for_matrix!(run_bnum);
-    let ctx = CTX.with(|c| c.borrow_mut().take().unwrap());
-    let (n, splits) = ctx.sink.finish();
-    eprintln!("recorded {} events, {} digit-type splits, mode {}", n, splits, MODE);
+macro_rules! the_giants {
+    ($m:ident) => {
+        bnum_verif_harness::for_giants!($m);
+    };
 }
+include!("../drv/rand.rs");
